@@ -41,7 +41,7 @@ _STATS_RE = re.compile(r'^(\d+) states generated, (\d+) distinct states found')
 _SIMSTATS_RE = re.compile(r'^The number of states generated: (\d+)')
 _COV_RE = re.compile(r'^<(\w+) line \d+, col \d+ to line \d+, col \d+ of module (\w+)(?: \([\d ]+\))?>: (\d+):(\d+)')
 _INV_RE = re.compile(r'^Error: Invariant (\w+) is violated')
-_PROP_RE = re.compile(r'^Error: Action property (\w+) is violated|^Error: Temporal properties were violated')
+_PROP_RE = re.compile(r'^Error: Action property (\w+) is violated|^Error: Temporal property (\w+) was violated|^Error: Temporal properties were violated')
 
 
 def _unescape(s):
@@ -128,7 +128,7 @@ def run(module, cfg=None, env=None, workers=1, coverage=False, simulate=None, de
             continue
         m = _PROP_RE.match(line)
         if m:
-            res.violated = m.group(1) or "temporal"
+            res.violated = m.group(1) or m.group(2) or "temporal"
     if res.rc not in (0, 12, 13) and not (res.rc == -9 and simulate is not None):
         lines = [l for l in res.out.splitlines() if not l.startswith('"VERDICT') and l.strip()]
         first = next((i for i, l in enumerate(lines) if l.startswith("Error") or "Exception" in l), max(0, len(lines) - 30))
